@@ -221,6 +221,10 @@ func (c *c18Chain) marketOps(cfg, batch, denom string) {
 		return
 	}
 	id = r.Resps[0].(*markettypes.MsgSellResponse).SellOrderIds[0]
+	// a small purchase: subtotal 7 base units, so any positive fee below 1/7 yields a total fee that is
+	// positive but smaller than one base unit
+	c.must(cfg, "buy-small", &markettypes.MsgBuyDirect{Buyer: buyer, Orders: []*markettypes.MsgBuyDirect_Order{{SellOrderId: id, Quantity: "1", BidPrice: coinP(denom, 7), DisableAutoRetire: false, RetirementJurisdiction: "KE", MaxFeeAmount: coinP(denom, 50)}}})
+	c.must(cfg, "buy-fraction", &markettypes.MsgBuyDirect{Buyer: buyer, Orders: []*markettypes.MsgBuyDirect_Order{{SellOrderId: id, Quantity: "0.000001", BidPrice: coinP(denom, 8), DisableAutoRetire: false, RetirementJurisdiction: "KE", MaxFeeAmount: coinP(denom, 50)}}})
 	c.must(cfg, "update-order", &markettypes.MsgUpdateSellOrders{Seller: seller, Updates: []*markettypes.MsgUpdateSellOrders_Update{{SellOrderId: id, NewQuantity: "4", NewAskPrice: coinP(denom, 9)}}})
 	c.must(cfg, "cancel-order", &markettypes.MsgCancelSellOrder{Seller: seller, SellOrderId: id})
 }
